@@ -99,6 +99,8 @@ fn wd_strategy() -> BS<Wd> {
         (4, (day_0001_9999(), prop_oneof![(0i128..2000), (0i128..2000).prop_map(|d| NS_D - 1 - d), (0i128..NS_D)]).prop_map(|(d, t)| d as i128 * NS_D + t).boxed()),
         (2, ns1900_0001_9999()),
         (1, (0usize..28, near_offset()).prop_map(|(i, off)| leap_entries_ns()[i].0 + off).boxed()),
+        // +-2^k ns from 1900 (+- 40 s, and up to a day later): where 64-bit nanosecond counts end
+        (1, (40u32..70, any::<bool>(), prop_oneof![2 => near_offset(), 1 => (0i128..NS_D)]).prop_map(|(k, neg, off)| (if neg { -(1i128 << k) } else { 1i128 << k }) + off).boxed()),
     ]);
     let free = (g, 0usize..9, 0u8..7).prop_map(|(g, s, target)| Wd { g, s, target }).boxed();
     // instants within 2 us of a TAI / UTC / TT midnight, expressed in every scale (for an epoch stored in
@@ -117,6 +119,10 @@ fn wd_strategy() -> BS<Wd> {
 /// ET/TDB epochs are not asserted this close to a midnight of the accessor's scale: the conversion is only
 /// required (C07) and observed to be accurate to some tens of nanoseconds
 const DYN_MARGIN: i128 = 100;
+
+thread_local! {
+    static WEEKDAY_FORMAT: hifitime::efmt::Format = <hifitime::efmt::Format as std::str::FromStr>::from_str("%A %a").unwrap();
+}
 
 fn is_dyn(s: usize) -> bool {
     s == S_ET || s == S_TDB
@@ -160,6 +166,12 @@ fn wd_oracle(c: &Wd) -> Verdict {
             let gott = lib!(e.weekday_in_time_scale(SCALES[S_TT]));
             ensure!(idx(gott) == tw, "weekday_in_time_scale(TT) of {} count {} = {:?}, want {}", SCALE_NAMES[c.s], cnt, gott, WEEKDAY_LONG[tw as usize]);
         }
+    }
+    // the weekday printed by %A / %a is the civil weekday of the date in the epoch's own scale
+    {
+        let own = weekday_of_day1900(c.g.div_euclid(NS_D) as i64) as usize;
+        let fa = lib!(format!("{}", hifitime::efmt::Formatter::new(e, WEEKDAY_FORMAT.with(|f| *f))));
+        ensure!(fa == format!("{} {}", WEEKDAY_LONG[own], WEEKDAY_SHORT[own]), "\"%A %a\" of {} count {} prints {:?}, want {} {}", SCALE_NAMES[c.s], cnt, fa, WEEKDAY_LONG[own], WEEKDAY_SHORT[own]);
     }
     // next / previous
     let w = WD[c.target as usize];
